@@ -45,6 +45,7 @@ type Obligation struct {
 	Replace   map[string]string `json:"replace"`
 	SchedChoice bool            `json:"sched_choice"`
 	MapOrderChoice bool         `json:"map_order_choice"`
+	ReplayAttempts int          `json:"replay_attempts"`
 	HashIDs   bool              `json:"hash_ids"`
 	RaceMode  bool              `json:"race_mode"`
 	AllocBudget int64           `json:"alloc_budget"`
@@ -783,6 +784,9 @@ func (r *runner) replayViolation(o *Obligation, params map[string]int, v interp.
 	}
 	if o.MapOrderChoice || o.SchedChoice {
 		attempts = 30 // native map order / scheduling is random: repeat until the chosen order shows up
+	}
+	if o.ReplayAttempts > attempts {
+		attempts = o.ReplayAttempts // the code under test depends on native map order the engine fixed
 	}
 	var out string
 	var code int
